@@ -394,6 +394,77 @@ fn check_extras(st: &mut Stats, line: &Value, conc: &Concretisation, ont: &Ontol
     }
 }
 
+/// The previous ontology of this process (builder path, dense ids) is kept alive: a similarity score is a function of
+/// the ontology the two terms belong to, so asking the same ordered pair of ids first in the previous and IMMEDIATELY
+/// afterwards in the current ontology (same algorithm, same kind, no call in between) must give each ontology's own value.
+struct Live {
+    ont: Ontology,
+    pairs: Vec<PairArgs>,
+    ic: BTreeMap<u32, [f64; 3]>,
+    line: Value,
+}
+thread_local! {
+    static PREVIOUS: std::cell::RefCell<Option<Live>> = std::cell::RefCell::new(None);
+}
+
+fn observed_ic(ont: &Ontology, exp: &Expected) -> BTreeMap<u32, [f64; 3]> {
+    let mut ic: BTreeMap<u32, [f64; 3]> = BTreeMap::new();
+    for (id, _) in &exp.terms {
+        let mut v = [0.0; 3];
+        if let Some(t) = ont.hpo(*id) {
+            for k in KINDS {
+                v[k as usize] = t.information_content().get_kind(&ic_kind(k)) as f64;
+            }
+        }
+        ic.insert(*id, v);
+    }
+    ic
+}
+
+fn alternate(st: &mut Stats, prop: &str, line: &Value, conc: &Concretisation, ont: Ontology, exp: &Expected, pairs: Vec<PairArgs>) {
+    if !compare(&ont, exp, &[Focus::Struct, Focus::Ann]).is_empty() {
+        return; // inputs differ from the specification: C01 / C02's business
+    }
+    let cur = Live { ic: observed_ic(&ont, exp), ont, pairs, line: line.clone() };
+    let mut diffs: Vec<String> = vec![];
+    PREVIOUS.with(|p| {
+        if let Some(prev) = p.borrow().as_ref() {
+            let mut asked = 0;
+            for pc in &cur.pairs {
+                let Some(pp) = prev.pairs.iter().find(|q| q.a == pc.a && q.b == pc.b) else { continue };
+                let (Some(a1), Some(b1), Some(a2), Some(b2)) = (prev.ont.hpo(pc.a), prev.ont.hpo(pc.b), cur.ont.hpo(pc.a), cur.ont.hpo(pc.b)) else { continue };
+                asked += 1;
+                if asked > 6 {
+                    break;
+                }
+                for algo in ALGOS {
+                    for k in KINDS {
+                        st.evaluations += 2;
+                        let bi = builtin(algo, k);
+                        // previous ontology, then at once the current one, then the previous one again
+                        let x1 = catch(|| bi.calculate(&a1, &b1)).unwrap_or(f32::NAN);
+                        let x2 = catch(|| bi.calculate(&a2, &b2)).unwrap_or(f32::NAN);
+                        let x3 = catch(|| bi.calculate(&a1, &b1)).unwrap_or(f32::NAN);
+                        let (w1, w2) = (expected_score(algo, k, pp, &prev.ic), expected_score(algo, k, pc, &cur.ic));
+                        if !close_f32(x1, w1, 1e-4, 1e-5) || !close_f32(x2, w2, 1e-4, 1e-5) || !close_f32(x3, w1, 1e-4, 1e-5) {
+                            diffs.push(format!("{algo}/{}({},{}) asked alternately in two ontologies that are alive at the same time: previous ontology {x1} (formula {w1}), current ontology {x2} (formula {w2}), previous again {x3}", k.name(), pc.a, pc.b));
+                        }
+                    }
+                }
+                if diffs.len() > 6 {
+                    break;
+                }
+            }
+            if !diffs.is_empty() && st.violations.len() < 8 {
+                diffs.truncate(8);
+                st.violations.push(Violation { property: prop.into(), what: diffs[0].clone(),
+                    replay: json!({"cmd": "replay-sim", "property": prop, "line": line, "prev_line": prev.line, "conc": conc.to_json(), "diffs": diffs}) });
+            }
+        }
+    });
+    PREVIOUS.with(|p| *p.borrow_mut() = Some(cur));
+}
+
 pub fn replay_line(st: &mut Stats, prop: &str, seed: u64, idx: usize, line: &Value, conc_filter: Option<&str>) {
     let mut model_ids = u32_list(&line["arena"]);
     model_ids.sort_unstable();
@@ -438,6 +509,11 @@ pub fn replay_line(st: &mut Stats, prop: &str, seed: u64, idx: usize, line: &Val
             Ok(ont) => {
                 if prop == "C04" {
                     check_ont(st, prop, line, &conc, "builder", &ont, &exp, &pairs);
+                    if conc.name == "dense" && !pairs.is_empty() {
+                        // (the binary path below builds its own ontology; this one is handed over to stay alive)
+                        let pairs2: Vec<PairArgs> = pairs.iter().map(|p| PairArgs { a: p.a, b: p.b, common: p.common.clone(), union: p.union.clone(), dist: p.dist, ov: p.ov }).collect();
+                        alternate(st, prop, line, &conc, ont, &exp, pairs2);
+                    }
                 } else {
                     check_extras(st, line, &conc, &ont, prop);
                     continue;
@@ -484,6 +560,10 @@ pub fn replay_one(v: &Value) -> bool {
     let mut st = Stats::default();
     let conc = v.get("conc").map(|c| Concretisation::from_json(c).name);
     let prop = v["property"].as_str().unwrap_or("C04").to_string();
+    if v.get("prev_line").is_some() {
+        // a history of two ontologies: replay the previous one first (it stays alive), then the reported one
+        guard_case(&mut st, &prop, "replay-sim", &v["prev_line"], |st| replay_line(st, &prop, v["seed"].as_u64().unwrap_or(1), 0, &v["prev_line"], conc.as_deref()));
+    }
     guard_case(&mut st, &prop, "replay-sim", &v["line"], |st| replay_line(st, &prop, v["seed"].as_u64().unwrap_or(1), 0, &v["line"], conc.as_deref()));
     for x in &st.violations {
         println!("reproduced: {}", x.what);
